@@ -11,8 +11,11 @@ CONSTANTS
   SortShapes = {12}
   ThreshShapes = {}
   ThreshVals = 1
+  ThreshNames = {"intensity", "labels"}
   FIXED = FALSE
+  TDFIXED = TRUE
 INVARIANT InBounds
 INVARIANT SortTotal
+INVARIANT DenseTotal
 INVARIANT SortOK
 CHECK_DEADLOCK FALSE
